@@ -56,6 +56,35 @@ impl Elem for Obs {
     }
 }
 
+/// One byte, no drop glue, stateful Default and logging Clone: byte-sized elements are where
+/// memset-style fast paths go, and a fill with one value is not N calls.
+#[derive(Debug, PartialEq)]
+struct Obs1(u8);
+impl Clone for Obs1 {
+    fn clone(&self) -> Obs1 {
+        log_push(self.0 as u64);
+        Obs1(self.0)
+    }
+}
+impl Default for Obs1 {
+    fn default() -> Obs1 {
+        let n = CALLS.with(|c| c.borrow().len());
+        log_push(n as u64);
+        Obs1(n as u8)
+    }
+}
+impl Elem for Obs1 {
+    const NAME: &'static str = "Obs1(1 byte,no-drop,stateful Default)";
+    const TRACKED: bool = false;
+    const KEYED: bool = true;
+    fn fresh() -> Obs1 {
+        Obs1(u32::fresh() as u8)
+    }
+    fn key(&self) -> u64 {
+        self.0 as u64
+    }
+}
+
 /// Zero-sized with a counting Default / Clone (ZST paths skip allocations, not calls).
 #[derive(Debug)]
 struct ZObs;
@@ -398,6 +427,7 @@ fn all_n<N: ArrayLength>(st: &mut Stats, args: &Args) {
     }
     if args.part_on("clone") {
         t_clone_default::<Obs, N>(st, |e| e.v as u64);
+        t_clone_default::<Obs1, N>(st, |e| e.0 as u64);
         t_clone_default::<DTok, N>(st, |e| e.t.raw_id());
         t_clone_default::<ZObs, N>(st, |_| 0);
         t_default_positions::<N>(st);
